@@ -71,6 +71,10 @@ def OtherConnsSame(h, inner0, modname, conn):
     return modname in h.subscriptions and dict_same_except(h.subscriptions[modname], inner0, conn)
 
 
+def SentTo(new, c, modname, name):
+    return any(same_object(nth(e, 0), c) and nth(e, 1) == modname and nth(e, 2) == name for e in new)
+
+
 def DeliveredSoFar(subscriptions, done, record, modname, ls0, ls1):
     """exactly the visited connections whose level is at or below the record's level got the message, once each"""
     new = ls1[len(ls0):]
@@ -78,10 +82,11 @@ def DeliveredSoFar(subscriptions, done, record, modname, ls0, ls1):
     return (is_prefix(ls0, ls1)
             and all(nth(e, 0) in done and subscriptions[nth(e, 0)] <= record.levelno
                     and nth(e, 1) == modname and nth(e, 2) == name for e in new)
-            and forall_obj(lambda c: implies(c in done and subscriptions[c] <= record.levelno, (c, modname, name) in new)))
+            and forall_obj(lambda c: implies(c in done and subscriptions[c] <= record.levelno, SentTo(new, c, modname, name))))
 
 
 def Delivered(h, record, ls0, ls1):
+    """a record of module m reaches exactly the connections whose level for m is at or below the record's level"""
     if record.name not in h.subscriptions:
         return len(ls1) == len(ls0)
     subs = h.subscriptions[record.name]
@@ -90,7 +95,8 @@ def Delivered(h, record, ls0, ls1):
     return (is_prefix(ls0, ls1)
             and all(nth(e, 0) in subs and subs[nth(e, 0)] <= record.levelno
                     and nth(e, 1) == record.name and nth(e, 2) == name for e in new)
-            and forall_obj(lambda c: implies(c in subs and subs[c] <= record.levelno, (c, record.name, name) in new)))
+            and len(new) <= len(subs)
+            and forall_obj(lambda c: implies(c in subs and subs[c] <= record.levelno, SentTo(new, c, record.name, name))))
 
 
 def RolloverRemoves(h, rem0, rem1):
@@ -105,7 +111,7 @@ CONTRACTS = [
     dict(key='check_level', file='frappy/logging.py', func='check_level', serves=['C20'],
          requires=[], module_values={'LOG_LEVELS': LOG_LEVELS, 'LEVEL_NAMES': LEVEL_NAMES},
          ensures={'valid': 'ValidLevel(level) and py_eq(result, LevelOf(level))'},
-         raises={'cls': 'issubclass(exc, ValueError)', 'invalid': 'not ValidLevel(level)'},
+         raises={'cls': 'issubclass(exc, ValueError) or (issubclass(exc, TypeError) and not is_hashable(level))', 'invalid': 'not ValidLevel(level)'},
          lemmas={'accepts': dict(requires=['ValidLevel(level)'], ensures={}, raises='never')}),
     # the per-connection callback of the dispatcher: records the delivery
     dict(key='send_log', file=None, func=None, packed_args=True, serves=[], trusted=True, requires=[],
@@ -119,8 +125,8 @@ CONTRACTS = [
          ensures={'cell': 'CellSet(self, modname, conn, level)',
                   'other_modules': 'OtherModulesSame(self, old(self.subscriptions), modname)',
                   'other_conns': 'OtherConnsSame(self, old(InnerOf(self.subscriptions, modname)), modname, conn)'},
-         raises={'cls': 'issubclass(exc, ValueError)', 'invalid': 'not ValidLevel(level)',
-                 'untouched': "unchanged('subscriptions')"}),
+         raises={'cls': 'issubclass(exc, ValueError) or (issubclass(exc, TypeError) and not is_hashable(level))', 'invalid': 'not ValidLevel(level)',
+                 'untouched': "unchanged('subscriptions') and self.subscriptions == old(self.subscriptions)"}),
     dict(key='RemoteLogHandler.handle', vc=False, file='frappy/logging.py', func='RemoteLogHandler.handle', serves=['C20'],
          self_type='RemoteLogHandler', params={'record': 'LogRecord'},
          requires=['inv(self)', 'inv(record)', 'record.levelno in LEVEL_NAMES', "'.' not in record.name"],
